@@ -77,7 +77,7 @@ pub fn decode_c11(tape: &[u16]) -> Case {
     }
     let mem_limits = mem_sweep(&mut t);
     let spec = sched_spec(&mut t);
-    let long = t.chance(1, 12);
+    let long = t.chance(1, 8);
     let mut input = sanitize(input_in(&mut t, &InputOpts { max_frags: 12, safe_only: true, ..Default::default() }, enc));
     if long {
         // text longer than the decoder's 1 KiB buffer: one text node arrives in several chunks
@@ -90,8 +90,17 @@ pub fn decode_c11(tape: &[u16]) -> Case {
             at -= 1;
         }
         let mut v = input[..at].to_vec();
-        for _ in 0..(1500 / b.len().max(1)) {
+        if t.chance(1, 2) {
+            // a long ASCII run (served by the decoder's fast path up to its 1 KiB buffer)
+            // directly followed by a multi-byte character (slow path) in the same text node
+            let n = *t.pick(&[1023usize, 1024, 1025, 1100, 2047, 2048, 2100]);
+            v.extend(std::iter::repeat_n(b'x', n));
             v.extend_from_slice(&b);
+            v.extend_from_slice(b"tail");
+        } else {
+            for _ in 0..(1500 / b.len().max(1)) {
+                v.extend_from_slice(&b);
+            }
         }
         v.extend_from_slice(&input[at..]);
         input = v;
